@@ -248,6 +248,9 @@ VERUS = {
     'set': dict(props=['C07', 'C11'], tier='quick',
                 desc='HashSet set algebra on extracted text over an abstract view (the mathematical set of elements plus the duplicate-free order in which the iterator yields them; contains / len as specified by C01): Intersection::next and Difference::next (the next element of the driving set that is / is not in the other set, everything skipped is not / is), the constructors difference, intersection (whichever set is smaller drives: exactly A n B), union (one set in full, then the rest of the other: exactly A u B, nothing twice), symmetric_difference (exactly the elements in one set only, nothing twice), and is_subset / is_superset / is_disjoint equal the mathematical predicates, including the length pre-check of is_subset (cardinality lemma); HashSet::eq is equality of the element sets and HashMap::eq holds exactly when both maps have the same keys with values that compare equal (for a value type whose == meets its specification), whatever the layout, capacity, history or hasher',
                 paired={}),
+    'iterhash': dict(props=['C06', 'C02', 'C13'], tier='quick',
+                     desc='RawIterHashInner::next (the probe-sequence iterator behind HashTable::iter_hash / iter_hash_mut) on extracted text, for every table size and both widths: every yielded index is a bucket of the table and a FULL one (so the reference handed out is in bounds and to a live element), the group load stays inside the control array, the iteration ends only at a window holding an EMPTY byte, and it terminates (probe-cycle theorem + load factor)',
+                     paired={}),
     'assoc': dict(props=['C01', 'C06'], tier='quick',
                   desc='lemma-only unit over the contracts of units ctrl / rehash / resize: what rehash_in_place and resize_inner establish (every FULL bucket placed) is the reachability invariant F2 that insert and erase are proved to preserve; and lookup BY KEY: for a lawful Eq (the closure accepts exactly the buckets holding an element with key k) and a lawful Hash (such elements were stored under the probed hash), find_inner answers Some exactly when an element with key k is stored, and the bucket it returns holds one',
                   paired={}),
